@@ -91,8 +91,9 @@ std::vector<T> make_data_dim(Rng& rng, std::size_t bins, std::string& kind, bool
     std::vector<T> d(bins, T());
     int const span = std::is_same<T, float>::value ? 40 : 400;   // binary exponent half-range
     constant = false;
-    switch (rng.below(8))
+    switch (rng.below(9))
     {
+    case 8: kind = "subnormal"; { T s = std::numeric_limits<T>::denorm_min(); for (auto& x : d) x = s * T(rng.below(60)); if (std::all_of(d.begin(), d.end(), [](T v) { return v == T(); })) d[0] = s; } break;
     case 0: kind = "one-nonzero-bin"; d[rng.below(bins)] = std::ldexp(T(1) + T(rng.u01l()), int(rng.below(2 * span)) - span); break;
     case 1: kind = "two-spikes"; d[rng.below(bins)] = T(1) + T(rng.u01l()); d[rng.below(bins)] = std::ldexp(T(1), int(rng.below(40)) - 20); break;
     case 2: { kind = "geometric"; T f = std::ldexp(T(1), int(rng.below(2 * span)) - span); LD q = std::exp2((LD)(2.0 * span - 20) / bins * (rng.coin() ? 1 : -1) * rng.u01l());
@@ -128,6 +129,11 @@ void judge_refinement(hep::vegas_pdf<T> const& old_pdf, T alpha, std::vector<T> 
         std::vector<LD> imp = vegas_importance(dd, alpha, zero);
         if (zero) { count("dims_all_zero_unjudged"); continue; }
         if (vegas_min_share(dd) < (LD)std::numeric_limits<T>::min() * 64) { count("dims_underflow_prone_unjudged"); continue; }
+        {
+            LD sum = 0;
+            for (LD x : dd) sum += x;
+            if (sum < (LD)std::numeric_limits<T>::min() * 1024) { count("dims_subnormal_data_validity_only"); continue; }
+        }
         LD total = 0, maxd = 0;
         for (LD x : imp) total += x;
         std::vector<LD> og = grid_dim(old_pdf, d), ng = grid_dim(np, d);
